@@ -185,6 +185,18 @@ package asn1
 //@ at seq assert [sequence-elements-inherit-the-lax-flag] seq.lax == params.lax
 //@ at ps2 assert [lax-flag-handed-on] ps2.lax == params.lax
 //@ ensures [consumes-a-prefix-of-the-input] err == nil ==> initOffset <= offset && offset <= len(bytes)
+//@ site parseTagAndLength#2 as th
+//@ site parseTagAndLength#3 as ti
+//@ site setDefaultValue#1 as d1
+//@ site setDefaultValue#2 as d2
+//@ site invalidLength#1 as il
+//@ ensures [an-explicit-wrapper-that-ends-the-input-is-refused-as-upstream-does] params.explicit && th.called && th.res2 == nil && th.res1 == len(bytes) ==> err != nil
+//@ ensures [truncated-content-is-refused] il.called && il.res ==> err != nil
+//@ ensures [an-explicit-mismatch-consumes-nothing-when-a-default-applies-and-fails-otherwise] d1.called ==> (d1.res ==> err == nil && offset == initOffset) && (!d1.res ==> err != nil)
+//@ ensures [a-tag-mismatch-consumes-nothing-when-a-default-applies-and-fails-otherwise] d2.called ==> (d2.res ==> err == nil && offset == initOffset) && (!d2.res ==> err != nil)
+//@ at th assert [header-read-at-the-given-offset] th.bytes == bytes && th.initOffset == initOffset
+//@ at ti assert [inner-header-read-right-after-a-non-empty-compound-wrapper] ti.bytes == bytes && ti.initOffset == th.res1 && params.explicit && th.res0.length > 0 && th.res0.isCompound
+//@ at il assert [content-length-checked-against-the-input-before-slicing] il.offset == offset && il.length == t.length && il.sliceLength == len(bytes)
 
 //@ func parseSequenceOf
 //@ props C10
